@@ -1153,6 +1153,11 @@ def _c10_judge_instructions(ctx: Ctx, sim, instrs, who: str) -> List[Violation]:
         if target is None:
             continue
         ctx.cov[f"c10:builtin:{who}:{n[:-11]}"] += 1
+        if who == "driver" and hasattr(i, "base_id") and getattr(v.driver_state, "home_base_id", None) == i.base_id and not _grants(target, v):
+            # a driver naming his OWN home base although it does not admit him: an inconsistent input (initialisation gives a home
+            # base shared by several drivers the private id of the last one only); the instruction is refused, nothing is entered
+            ctx.cov["c10:driver_names_own_home_base_that_does_not_admit_him"] += 1
+            continue
         if not _grants(target, v):
             out.append(Violation("C10", "builtin_no_access", (who, n[:-11], "vehicle_without_fleet" if not v.membership.memberships else "other_fleet"), f"{who} pairs vehicle {v.id} {sorted(v.membership.memberships)} with {target.id} {sorted(target.membership.memberships)} ({n})"))
     return out
